@@ -508,27 +508,28 @@ func classifyCrash(stderr string) (sig string, isFabio bool) {
 // ---------------------------------------------------------------- check
 
 type agg struct {
-	runs        int
-	nontrivial  int
-	distinct    map[string]bool
-	schedules   map[string]bool
-	states      map[string]bool
-	steps       int64
-	simNs       int64
-	faults      map[string]int
-	probes      map[string]int
-	leaked      int
-	troubles    []string
-	samples     []any
-	hashes      map[int64]string
-	violations  map[string]*foundViolation // key class|sig
-	knownSeen   map[string]int
-	seedsDone   []int64
-	workerProcs int
+	runs             int
+	nontrivial       int
+	distinct         map[string]bool
+	schedules        map[string]bool
+	states           map[string]bool
+	steps            int64
+	simNs            int64
+	faults           map[string]int
+	probes           map[string]int
+	leaked           int
+	troubles         []string
+	historyDependent int
+	samples          []any
+	hashes           map[int64]string
+	violations       map[string]*foundViolation // key class|sig
+	knownSeen        map[string]int
+	seedsDone        []int64
+	workerProcs      int
 }
 
 type foundViolation struct {
-	alts []int64 // further seeds that showed the same class and signature
+	alts   []int64 // further seeds that showed the same class and signature
 	v      Violation
 	seed   int64
 	replay string
@@ -705,7 +706,10 @@ func check(id, tier string, verbose bool) int {
 					for _, l := range wo.lines {
 						a.add(id, kn, l, 3)
 					}
-					if !wo.done {
+					if !wo.done && strings.Contains(wo.stderr, "SHRINK-WATCHDOG") {
+						// an execution hung in real time while a reported violation was being shrunk: the violation and
+						// its un-shrunk replay file were written before; nothing else is lost
+					} else if !wo.done {
 						// the worker died: the run after the last reported one is the culprit
 						culprit := start + int64(len(wo.lines))
 						sig, isFabio := classifyCrash(wo.stderr)
@@ -762,7 +766,14 @@ func check(id, tier string, verbose bool) int {
 	}
 
 	// determinism recheck
-	mismatches, rechecked := 0, 0
+	mismatches, rechecked, historyDependent := 0, 0, 0
+	type differing struct {
+		seed    int64
+		harness string
+		hash    string
+		gmp     int
+	}
+	var differ []differing
 	if len(troubles) == 0 && tc.Recheck > 0 && len(a.seedsDone) > 0 {
 		sort.Slice(a.seedsDone, func(i, j int) bool { return a.seedsDone[i] < a.seedsDone[j] })
 		var pick []int64
@@ -797,13 +808,39 @@ func check(id, tier string, verbose bool) int {
 				for _, l := range wo.lines {
 					rechecked++
 					if a.hashes[l.Spec.Seed] != l.TraceHash {
-						mismatches++
-						troubles = append(troubles, fmt.Sprintf("determinism: seed %d trace %s at GOMAXPROCS=%d, %s before", l.Spec.Seed, l.TraceHash, gmp, a.hashes[l.Spec.Seed]))
+						differ = append(differ, differing{l.Spec.Seed, g.harness, l.TraceHash, gmp})
 					}
 				}
 			}()
 		}
 		rwg.Wait()
+		// A trace that differs from the first execution has one of two causes. Either the execution is not a
+		// function of the seed (a source of nondeterminism escaped the simulator): trouble. Or fabio itself keeps
+		// process-wide state (a package-level cache, free list, counter) that the runs executed earlier in the same
+		// worker process left behind, so the run continued a longer history of one process: legitimate behaviour,
+		// and harmless to the verdict because every violation is confirmed by replay in a fresh process. The two are
+		// told apart by executing the seed alone in four fresh processes at GOMAXPROCS 1, 4, 2 and 16: if those agree with
+		// each other the difference is history, otherwise it is nondeterminism.
+		for _, df := range differ {
+			var h []string
+			same := true
+			for _, gmp := range []int{1, 4, 2, 16} {
+				j := job{Harness: df.harness, Prop: id, Tier: tier, Seeds: []int64{df.seed}, Known: kn, Params: pc.Params}
+				wo := runWorker(binOf(df.harness), j, scratch, gmp, 10*time.Minute)
+				x := ""
+				if len(wo.lines) == 1 {
+					x = wo.lines[0].TraceHash
+				}
+				h = append(h, x)
+				same = same && x != "" && x == h[0]
+			}
+			if same {
+				historyDependent++
+				continue
+			}
+			mismatches++
+			troubles = append(troubles, fmt.Sprintf("determinism: seed %d trace %s at GOMAXPROCS=%d, %s before; alone in fresh processes %q", df.seed, df.hash, df.gmp, a.hashes[df.seed], h))
+		}
 	}
 
 	// confirm violations by replaying in a fresh process
@@ -864,6 +901,7 @@ func check(id, tier string, verbose bool) int {
 	}
 
 	wall := time.Since(t0).Seconds()
+	a.historyDependent = historyDependent
 	writeEvidence(pc, tier, seed, a, wall, buildS, len(conf), rechecked, mismatches, troubles)
 
 	var knownWhat []string
@@ -876,6 +914,9 @@ func check(id, tier string, verbose bool) int {
 	}
 	fmt.Printf("fsim: %s %s: runs=%d nontrivial=%d distinct=%d steps=%d sim=%.0fs wall=%.1fs (build %.1fs) leaked=%d recheck=%d/%d\n",
 		id, tier, a.runs, a.nontrivial, len(a.distinct), a.steps, float64(a.simNs)/1e9, wall, buildS, a.leaked, rechecked-mismatches, rechecked)
+	if historyDependent > 0 {
+		fmt.Printf("fsim: note: %d rechecked runs depend on state that earlier runs left in the worker process (fabio keeps process-wide state); alone in fresh processes they are reproducible\n", historyDependent)
+	}
 	for _, p := range sortedKeys(a.probes) {
 		if a.probes[p] == 0 {
 			fmt.Printf("fsim: warning: probe %s stayed at 0\n", p)
@@ -973,6 +1014,17 @@ func replayOnce(dir string, pc *PropCfg, path, scratch string) (bool, string) {
 		}
 		return false, "did not crash"
 	}
+	if os.Getenv("VERIF_TRACE") != "" {
+		// the event trace of the replayed execution (fsim replay <file> with VERIF_TRACE=1)
+		for _, l := range wo.lines {
+			for _, t := range l.Log {
+				fmt.Println("  " + t)
+			}
+			for _, v := range l.Violations {
+				fmt.Printf("  => %s/%s: %s\n", v.Class, v.Sig, v.Msg)
+			}
+		}
+	}
 	for _, l := range wo.lines {
 		for _, v := range l.Violations {
 			if v.Class == rf.Expect.Class && v.Sig == rf.Expect.Sig {
@@ -1012,7 +1064,7 @@ func writeEvidence(pc *PropCfg, tier string, seed int64, a *agg, wall, buildS fl
 		"worker_processes":    a.workerProcs,
 		"components_real":     pc.Real,
 		"components_stub":     pc.Stub,
-		"determinism_recheck": map[string]int{"sampled": rechecked, "mismatches": mismatches},
+		"determinism_recheck": map[string]int{"sampled": rechecked, "mismatches": mismatches, "history_dependent": a.historyDependent},
 		"known_findings_seen": a.knownSeen,
 		"build_s":             buildS,
 		"troubles":            troubles,
